@@ -5,7 +5,7 @@ import json, io, contextlib, itertools, copy, os, tempfile, shutil
 import numpy as np
 from . import core, meta as M, suite_meta as SM, check_meta as CM, check_wrapper as CW
 
-THEOREMS = ['Source.get_valid_classes_is_model', 'Source.get_valid_classes_refuses', 'Source.get_multiplicity_is_model', 'Source.translator_complete_meta', 'Source.is_constant_is_model', 'Source.is_repeating_is_model', 'Source.get_const_period_is_model', 'Source.subset_shape_is_model', 'Source.merge_shape_is_model', 'C07.merge_valid_slice', 'C07.merge_valid_time', 'C07.simplify_valid',
+THEOREMS = ['C07.merge_valid_slice', 'C07.merge_valid_time', 'C07.simplify_valid',
             'C07.subset_slice_valid', 'C07.subset_time_valid', 'C07.subset_vector_valid',
             'C07.subset_slice_raw_valid', 'C07.makeEmpty_bases', 'C07.makeEmpty_valid',
             'C07.makeEmpty_refuses', 'C07.merge_valid_vector', 'C07.convert_valid', 'C07.split_chain_valid',
